@@ -24,6 +24,8 @@ from typing import Any, Callable
 from . import tlc
 from .report import Report
 
+NPROCS = int(os.environ.get("VERIF_PROCS", "16"))
+
 MC_CFG = """SPECIFICATION Spec
 VIEW View
 INVARIANT Inv
@@ -212,12 +214,13 @@ def _replay_task(args):
         return cfg, [], [], traceback.format_exc()
 
 
-def replay_edges(comp: Component, edges, inits, rep: Report, pid: str, procs=16, max_len=40):
+def replay_edges(comp: Component, edges, inits, rep: Report, pid: str, procs=None, max_len=40):
     init_by_cfg = {_key(i["cfg"]): _key(i["st"]) for i in inits}
     for e in edges:
         e["_init"] = init_by_cfg.get(_key(e["cfg"]))
     walks = plan_walks(edges, max_len=max_len, rng=random.Random(rep.seed))
     tasks = [(comp.module, comp.attr, cfg, walk) for cfg, walk in walks]
+    procs = procs or NPROCS
     with mp.Pool(min(procs, max(1, len(tasks)))) as pool:
         results = pool.map(_replay_task, tasks, chunksize=1)
     nsteps = sum(len(w) for _, w in walks)
@@ -298,11 +301,12 @@ def _record_task(args):
         return {"cfg": cfg, "seed": seed, "cycles": []}, traceback.format_exc()
 
 
-def record_traces(comp: Component, cfgs, seeds_per_cfg: int, cycles: int, seed: int, rep: Report, procs=16):
+def record_traces(comp: Component, cfgs, seeds_per_cfg: int, cycles: int, seed: int, rep: Report, procs=None):
     tasks = []
     for ci, cfg in enumerate(cfgs):
         for k in range(seeds_per_cfg):
             tasks.append((comp.module, comp.attr, cfg, seed * 100003 + ci * 1009 + k, cycles))
+    procs = procs or NPROCS
     with mp.Pool(min(procs, max(1, len(tasks)))) as pool:
         out = pool.map(_record_task, tasks, chunksize=max(1, len(tasks) // (procs * 4)))
     traces = []
